@@ -310,14 +310,15 @@ package ipfix
 //@   ensures [key] (len(addr) == 4 || len(addr) == 16) ==> result1 == fnvKey(addr, id)   // the map key is FNV-1 32 of the address octets followed by the big-endian id
 //@   ensures [trusted.key] !(len(addr) == 4 || len(addr) == 16) ==> result1 == fnvKey(addr, id)   // other address lengths do not occur (net.UDPAddr.IP has 4 or 16 octets)
 //@   ensures [shard] result == m.arr[m.off + result1 % 32]
+//@   aliases result m[result1 % 32]
 
 // the write goes through the shard pointer obtained from m: its effect on the view is Go's map assignment
 //@ func (MemCache).insert
 //@   names m id addr tr shard key
 //@   requires wellFormed(m)
 //@   ensures wellFormed(m)
-//@   ensures [trusted.view] cacheHas(m, addr, id) && cacheGet(m, addr, id) == tr
-//@   ensures [trusted.frame] forall a2 net.IP, i2 uint16 :: fnvKey(a2, i2) != fnvKey(addr, id) ==> (cacheHas(m, a2, i2) == old(cacheHas(m, a2, i2)) && cacheGet(m, a2, i2) == old(cacheGet(m, a2, i2)))
+//@   ensures [view] cacheHas(m, addr, id) && cacheGet(m, addr, id) == tr
+//@   ensures [frame] forall a2 net.IP, i2 uint16 :: fnvKey(a2, i2) != fnvKey(addr, id) ==> (cacheHas(m, a2, i2) == old(cacheHas(m, a2, i2)) && cacheGet(m, a2, i2) == old(cacheGet(m, a2, i2)))
 //@   modifies contents(m)
 
 //@ func (MemCache).retrieve
